@@ -29,3 +29,146 @@ func VerifH_C03_int() {
 	vCover("C03.int.big", err == nil && v > 1<<62)
 	vCover("C03.int.overflow-rejected", err != nil && st == refOK && hi != 0)
 }
+
+// vC03State builds an arbitrary small decoder state and the matching
+// reference table: ne dynamic entries with 1-byte names and 0..1-byte values,
+// any current maximum that holds them, any advertised limit above it (up to
+// 255, or 4096).
+func vC03State(ne int) (*HPACK, *refTable) {
+	hp := &HPACK{}
+	t := &refTable{}
+	limit := uint32(vIte64(vBool(), 4096, uint64(vU8())))
+	max := uint32(vU8())
+	vAssume(max <= limit)
+	hp.maxTableSizeSettings, hp.maxTableSize = limit, max
+	t.limit, t.max = limit, max
+	for i := 0; i < ne; i++ { // oldest first
+		k := vBytes(1)
+		v := vBytes(vRange(vPick(1, 0), 1))
+		hf := &HeaderField{}
+		hf.SetBytes(k, v)
+		hp.dynamic = append(hp.dynamic, hf)
+		t.ents = append([]refField{{name: k, value: v}}, t.ents...)
+	}
+	vAssume(t.size() <= uint64(max))
+	return hp, t
+}
+
+// One call of the field decoder on every input of up to 5 (quick) / 7
+// (thorough) bytes with an empty dynamic table and arbitrary table limits,
+// against the RFC 7541 reference: same accept/reject, same field, same
+// remaining bytes, same dynamic table afterwards. Huffman-coded strings are
+// excluded here (H bit assumed 0); VerifH_C03_huff covers them.
+//
+//verif:harness prop=C03 unwind=24 timeout=600 timeoutT=5000
+func VerifH_C03_field() {
+	hp, t := vC03State(0)
+	vC03Field(hp, t, vPick(5, 7))
+}
+
+// The same from a decoder state with 1 or 2 dynamic entries, on every input
+// of up to 3 (quick) / 5 (thorough) bytes: index arithmetic, insertion,
+// eviction, oversized entries, size updates that evict.
+//
+//verif:harness prop=C03 unwind=24 timeout=600 timeoutT=5000
+func VerifH_C03_table() {
+	hp, t := vC03State(vRange(1, 2))
+	vC03Field(hp, t, vPick(3, 5))
+}
+
+func vC03Field(hp *HPACK, t *refTable, maxLen int) {
+	blockStart := vBool()
+	fieldsProcessed := int(vU8() & 1)
+	b := vBytes(vRange(0, maxLen))
+	hf := &HeaderField{sensible: vBool()}
+	hf.SetBytes(vBytes(1), vBytes(1)) // stale content from the previous field
+
+	// reference: size updates (if legal here) followed by one field
+	at := blockStart && fieldsProcessed == 0
+	pos, st, got := 0, refOK, false
+	var f refField
+	for pos < len(b) {
+		var upd bool
+		var used int
+		f, upd, used, st = refHpackRep(t, at, b[pos:])
+		if st != refOK {
+			break
+		}
+		pos += used
+		if !upd {
+			got = true
+			break
+		}
+	}
+	vAssume(!vC03SawHuffman(b))
+
+	rest, err := hp.nextField(hf, blockStart, fieldsProcessed, b)
+	switch {
+	case st == refOK:
+		vAssert(err == nil, "C03.field.rejects-valid")
+		if err == nil {
+			vAssert(len(rest) == len(b)-pos, "C03.field.consumed")
+			if got {
+				vAssert(refFieldIs(&f, hf.key, hf.value), "C03.field.name-value")
+				vAssert(hf.sensible == f.never, "C03.field.never-indexed-flag")
+			}
+			vAssert(refTableIs(t, hp), "C03.field.table")
+			vAssert(hp.maxTableSize == t.max, "C03.field.table-max")
+		}
+	default:
+		vAssert(err != nil, "C03.field.accepts-invalid")
+	}
+	vCover("C03.field.indexed-static", st == refOK && got && f.whole && f.sidx != 0)
+	vCover("C03.field.literal-indexed", st == refOK && got && !f.whole && len(b) > 0 && b[0] == 0x40)
+	vCover("C03.field.update", st == refOK && pos > 0 && len(b) > 0 && b[0]&0xe0 == 0x20)
+	vCover("C03.field.invalid", st == refInvalid)
+}
+
+// vC03SawHuffman reports whether any string literal that the reference would
+// read in b has its H bit set. It mirrors the structure walk of refHpackRep
+// without decoding.
+func vC03SawHuffman(b []byte) bool {
+	pos := 0
+	for pos < len(b) {
+		c := b[pos]
+		switch {
+		case c&0x80 != 0:
+			return false
+		case c&0xe0 == 0x20:
+			_, _, u, st := refReadInt(5, b[pos:])
+			if st != refOK {
+				return false
+			}
+			pos += u
+			continue
+		}
+		var n uint = 4
+		if c&0xc0 == 0x40 {
+			n = 6
+		}
+		lo, _, u, st := refReadInt(n, b[pos:])
+		if st != refOK {
+			return false
+		}
+		pos += u
+		strs := 1
+		if lo == 0 {
+			strs = 2
+		}
+		for k := 0; k < strs; k++ {
+			if pos >= len(b) {
+				return false
+			}
+			if b[pos]&0x80 != 0 {
+				return true
+			}
+			_, used, st := refReadStr(b[pos:])
+			if st != refOK {
+				return false
+			}
+			pos += used
+		}
+		return false
+	}
+	return false
+}
